@@ -34,11 +34,39 @@ class Fail(Exception):
     pass
 
 
+def strip_comments(text):
+    """Rust source without // and /* */ comments (string and char literals are respected)."""
+    out, i, n = [], 0, len(text)
+    while i < n:
+        c = text[i]
+        if c == '"':
+            j = i + 1
+            while j < n and text[j] != '"':
+                j += 2 if text[j] == "\\" else 1
+            out.append(text[i:j + 1])
+            i = j + 1
+        elif c == "'" and i + 2 < n and (text[i + 2] == "'" or (text[i + 1] == "\\" and text[i + 3:i + 4] == "'")):
+            k = i + (3 if text[i + 2] == "'" else 4)
+            out.append(text[i:k])
+            i = k
+        elif text.startswith("//", i):
+            while i < n and text[i] != "\n":
+                i += 1
+        elif text.startswith("/*", i):
+            j = text.find("*/", i + 2)
+            i = n if j < 0 else j + 2
+        else:
+            out.append(c)
+            i += 1
+    return "".join(out)
+
+
 def read(p):
     try:
-        return open(R + p, encoding="utf-8").read()
+        text = open(R + p, encoding="utf-8").read()
     except OSError as e:
         raise Fail("cannot read %s: %s" % (p, e))
+    return strip_comments(text) if p.endswith(".rs") else text
 
 
 def need(cond, msg):
@@ -239,8 +267,15 @@ def parse_units():
         if f == "time.rs":
             need(re.search(r"fn time_powers\(powers: &mut Powers, power: i32\) \{\s*powers\.insert\(Unit::Second, power\);\s*\}", s),
                  "units/time.rs: time_powers changed")
-            need(re.search(r"powers: time_powers,\s*format: \$f,\s*conversion: Some\(Conversion::Factor\(ConversionFraction \{\s*numer: \$num,\s*denom: \$den,", s),
-                 "units/time.rs: the time! macro changed")
+            mm = re.search(r"macro_rules! time \{.*?pub static \$name: Derived = Derived (\{)", s, re.S)
+            need(mm, "units/time.rs: the time! macro changed")
+            top = fields(s[mm.start(1) + 1:matching(s, mm.start(1)) - 1])
+            mv = re.match(r"&DerivedVtable \{(.*)\}$", top.get("vtable", ""), re.S)
+            need(set(top) == {"id", "vtable"} and top["id"] == "$id" and mv, "units/time.rs: the time! macro changed")
+            vt = fields(mv.group(1))
+            mc = re.match(r"Some\(Conversion::Factor\(ConversionFraction \{(.*)\}\)\)$", vt.get("conversion", ""), re.S)
+            need(set(vt) == {"powers", "format", "conversion"} and vt["powers"] == "time_powers" and vt["format"] == "$f" and mc
+                 and fields(mc.group(1)) == {"numer": "$num", "denom": "$den"}, "units/time.rs: the time! macro changed")
             for m in re.finditer(r"pub static (\w+) = \(crate::generated::ids::(\w+), ([\d_]+) / ([\d_]+)\), (.*?)\n\}", s, re.S):
                 sg, pl = parse_format(m.group(5))
                 units[mod + m.group(1)] = {"idname": m.group(2), "powers": [("Second", 1)], "conv": ("Factor", num(m.group(3)), num(m.group(4))),
@@ -444,11 +479,15 @@ def parse_ops():
 
 def parse_builtins():
     s = read("eval.rs")
-    m = re.search(r"let builtin: BuiltIn = match name \{(.*?)_ => return None,", s, re.S)
-    need(m, "eval.rs: builtin() not found")
+    f = re.search(r"fn builtin\(", s)
+    need(f, "eval.rs: builtin() not found")
+    m = re.compile(r"let \w+: BuiltIn = match \w+ \{(.*?)_ => return None,", re.S).search(s, f.end())
+    need(m, "eval.rs: builtin() table not found")
     rows = re.findall(r'"(\w+)" => builtin::(\w+),', m.group(1))
     need(rows, "eval.rs: builtin() empty")
-    return rows
+    need(len({r[0] for r in rows}) == len(rows), "eval.rs: a builtin name has two arms")
+    order = {"sin": 0, "cos": 1, "round": 2, "floor": 3, "ceil": 4}
+    return sorted(rows, key=lambda r: (order.get(r[0], 9), r[0]))            # disjoint string arms: source order does not matter
 
 
 def parse_cli():
@@ -468,12 +507,17 @@ def parse_db_protocol():
     m = re.search(r"fn open_index\(config: &crate::config::Config\) -> Result<\(bool, Index\)> \{(.*?)\n\}\n", s, re.S)
     need(m, "db.rs: open_index not found")
     body = m.group(1)
-    need("if !force_rebuild {" in body and "Index::open_in_dir(&config.index_path)" in body and "return Ok((false, index));" in body,
-         "db.rs: the reopen path of open_index changed")
-    after = body[body.index("return Ok((false, index));"):]
+    fv = re.search(r"let (\w+) = match config\.meta\.version\.as_deref\(\) \{\s*Some\((\w+)\) => \2 != config\.this_version,\s*_ => true,", body)
+    need(fv, "db.rs: the version gate of open_index changed")
+    ro = re.search(r"if !%s \{\s*if let Ok\((\w+)\) = Index::open_in_dir\(&config\.index_path\) \{.{0,200}?return Ok\(\(false, \1\)\);" % fv.group(1), body, re.S)
+    need(ro, "db.rs: the reopen path of open_index changed")
+    after = body[ro.end():]
+    wv = re.search(r"let mut (\w+) = [^;]*?\.writer(?:_with_num_threads)?\(", s, re.S)
+    need(wv, "db.rs: no index writer is created")
+    W = wv.group(1)
     pats = [(r"crate::verif::crash_point\((\d+)\)", "CP"), (r"config\.remove_meta\(\)", "RemoveMeta"), (r"fs::remove_dir_all\(", "RemoveDir"),
-            (r"fs::create_dir_all\(", "CreateDir"), (r"Index::create_in_dir\(", "CreateIndex"), (r"\w+\.delete_all_documents\(\)", "DeleteAll"),
-            (r"\w+\s*\.load_bytes\(&mut \w+", "AddDocs"), (r"\w+\.commit\(\)", "Commit"), (r"config\.write_meta\(\)", "WriteMeta")]
+            (r"fs::create_dir_all\(", "CreateDir"), (r"Index::create_in_dir\(", "CreateIndex"), (W + r"\.delete_all_documents\(\)", "DeleteAll"),
+            (r"\(\s*(?:[^;()]*,\s*)?&mut " + W + r"\b", "AddDocs"), (W + r"\.commit\(\)", "Commit"), (r"config\.write_meta\(\)", "WriteMeta")]
 
     def scan(text):
         found = []
@@ -481,7 +525,12 @@ def parse_db_protocol():
             for mm in re.finditer(pat, text):
                 found.append((mm.start(), name, mm.group(1) if name == "CP" else None))
         found.sort()
-        return [(n, a) for _, n, a in found]
+        out = []
+        for _, n, a in found:
+            if n == "AddDocs" and out and out[-1][0] == "AddDocs":
+                continue                    # several calls that hand the writer on are one effect
+            out.append((n, a))
+        return out
     idx = scan(after)
     need(re.search(r"if config\.index_path\.is_dir\(\) \{\s*log::info!\([^;]*;\s*fs::remove_dir_all", after, re.S), "db.rs: remove_dir_all is no longer guarded by is_dir()")
     m2 = re.search(r"fn open_inner\(in_memory: bool\) -> Result<Self> \{(.*?)\n    \}\n", s, re.S)
@@ -498,8 +547,6 @@ def parse_db_protocol():
     s2 = read("config.rs")
     need(re.search(r"pub fn write_meta\(&self\) -> Result<\(\)> \{\s*let (\w+) = fs::File::create\(&self\.meta_path\)\?;\s*serde_json::to_writer\(\1, &self\.meta\)\?;", s2), "config.rs: write_meta changed")
     need("config.meta.version = Some(config.this_version.to_owned());" in blk and ("config.meta.database_hash = Some(%s);" % mh.group(1)) in blk, "db.rs: the metadata written after a rebuild changed")
-    fv = re.search(r"let force_rebuild = match config\.meta\.version\.as_deref\(\) \{\s*Some\((\w+)\) => \1 != config\.this_version,\s*_ => true,", body)
-    need(fv, "db.rs: the version gate of open_index changed")
     return idx, pre, reb
 
 
